@@ -288,7 +288,7 @@ func (c *Ctx) c05Constructor(sib string) {
 		r.Unknown("R05.5", name, "constructor does not resolve")
 		return
 	}
-	pol := pw.Policy{Inline: func(*types.Func, int) bool { return false }, Pure: basePure, Role: BaseRole}
+	pol := pw.Policy{Inline: inlineUnexported, MaxDepth: 2, Pure: basePure, Role: BaseRole}
 	e := pw.New(c.Pkg, pol)
 	paths, err := e.Run(fn)
 	if err != nil {
@@ -317,6 +317,11 @@ func (c *Ctx) c05Constructor(sib string) {
 			if ev.Field != nil && ev.Field.Name() == "FailedUpdateTTL" {
 				switch ev.Kind {
 				case pw.EvFieldWrite:
+					if ev.Value != nil && ev.Value.Type != nil {
+						if _, isStruct := ev.Value.Type.Underlying().(*types.Struct); isStruct {
+							continue
+						}
+					}
 					ttl = ev.Value
 				case pw.EvFieldRead:
 					if ttl == nil {
